@@ -53,3 +53,36 @@ def import_algopy():
         raise HarnessError('algopy imported from %s, not from %s' % (here, REPO))
     _algopy = algopy
     return algopy
+
+
+# --------------------------------------------------------------------------
+# CPU-time watchdog for a single call into the library
+# --------------------------------------------------------------------------
+
+CALL_CPU_LIMIT = float(os.environ.get('VERIF_CALL_CPU_LIMIT', '10'))
+
+
+class CallTimeout(BaseException):
+    """A single library call used more than CALL_CPU_LIMIT seconds of CPU time
+    (ordinary calls take milliseconds): it is treated as a call that does not
+    return.  CPU time, not wall time, so machine load cannot trigger it."""
+
+
+class cpu_limit(object):
+    def __init__(self, seconds=None):
+        self.seconds = seconds or CALL_CPU_LIMIT
+
+    def _handler(self, signum, frame):
+        raise CallTimeout('call exceeded %.0f s of CPU time' % self.seconds)
+
+    def __enter__(self):
+        import signal
+        self.old = signal.signal(signal.SIGVTALRM, self._handler)
+        signal.setitimer(signal.ITIMER_VIRTUAL, self.seconds)
+        return self
+
+    def __exit__(self, *exc):
+        import signal
+        signal.setitimer(signal.ITIMER_VIRTUAL, 0)
+        signal.signal(signal.SIGVTALRM, self.old)
+        return False
